@@ -1496,7 +1496,12 @@ func (c *Conn) unpackDatagram(buf []byte) ([][]byte, error) {
 		return nil, nil
 	}
 	common := dtlsstate.CommonState(c.state)
-	if common.LocalVersion.Equal(protocol.Version1_3) ||
+	// While both versions are still possible a datagram can be a DTLS 1.3
+	// ServerHello followed by protected records: only the DTLS 1.3 splitter
+	// reads those, and it reads plain DTLS 1.2 records as well.
+	undecided := common.LocalVersion.Equal(protocol.Version{}) && c.handshakeConfig != nil &&
+		c.handshakeConfig.MaxVersion.Equal(protocol.Version1_3)
+	if common.LocalVersion.Equal(protocol.Version1_3) || undecided ||
 		protocol.IsDTLS13Ciphertext(protocol.ContentType(buf[0])) {
 		cidLength := len(common.LocalConnectionIDForInboundRecords())
 		state13, is13 := c.state.(*dtlsstate.State13)
